@@ -26,11 +26,15 @@ def cnt (rem : List Item) : Option Nat → Nat
 def blobsOf (d : Nat) (isData : Bool) (sub : List Item) : List (Nat × Bool × Nat) :=
   (sub.map fun it => (d, isData, it.height)).reverse
 
+def bytesOf (d : Nat) (isData : Bool) (sub : List Item) : List (Nat × Bool × Nat × Bytes) :=
+  (sub.map fun it => (d, isData, it.height, it.blob)).reverse
+
 def lastH (sub : List Item) : Nat := (sub.getLast?.map (·.height)).getD 0
 
 /-- the DA double stores a chunk (also when the acknowledgement is lost) -/
 def daStore (a : ANode) (isData : Bool) (sub : List Item) : ANode :=
-  { a with daH := a.daH + 1, daBlobs := blobsOf a.daH isData sub ++ a.daBlobs }
+  { a with daH := a.daH + 1, daBlobs := blobsOf a.daH isData sub ++ a.daBlobs,
+           daBytes := bytesOf a.daH isData sub ++ a.daBytes }
 
 def withMarks (a : ANode) (isData : Bool) (sub : List Item) : ANode :=
   if isData then { a with dMarks := addMarks a.dMarks sub a.daH }
@@ -39,7 +43,8 @@ def withMarks (a : ANode) (isData : Bool) (sub : List Item) : ANode :=
 /-- an accepted, acknowledged chunk: marks, watermark, DA double -/
 def okStep (isData : Bool) (a : ANode) (sub : List Item) : ANode × List SW :=
   let r := raiseWm (withMarks a isData sub) isData (lastH sub)
-  ({ r.1 with daH := a.daH + 1, daBlobs := blobsOf a.daH isData sub ++ r.1.daBlobs }, r.2)
+  ({ r.1 with daH := a.daH + 1, daBlobs := blobsOf a.daH isData sub ++ r.1.daBlobs,
+              daBytes := bytesOf a.daH isData sub ++ r.1.daBytes }, r.2)
 
 /-- one attempt: new node, new remainder, durable writes, the call record -/
 def step (isData : Bool) (a : ANode) (rem : List Item) (ans : DAAns) : ANode × List Item × List SW × SubmitCall :=
@@ -75,17 +80,17 @@ theorem submitLoop_succ (isData : Bool) (fuel : Nat) (a : ANode) (rem : List Ite
     | ok k =>
       cases k with
       | none =>
-        simp only [step, okStep, withMarks, addMarks, blobsOf, lastH, cnt, reduceCtorEq, ↓reduceIte]
+        simp only [step, okStep, withMarks, addMarks, blobsOf, bytesOf, lastH, cnt, reduceCtorEq, ↓reduceIte]
         by_cases hc : rem.length = 0
         · simp only [hc, ↓reduceIte, List.append_nil]
         · simp only [hc, ↓reduceIte]
       | some k =>
-        simp only [step, okStep, withMarks, addMarks, blobsOf, lastH, cnt, reduceCtorEq, ↓reduceIte]
+        simp only [step, okStep, withMarks, addMarks, blobsOf, bytesOf, lastH, cnt, reduceCtorEq, ↓reduceIte]
         by_cases hc : min k rem.length = 0
         · simp only [hc, ↓reduceIte, List.append_nil]
         · simp only [hc, ↓reduceIte]
     | lost k =>
-      cases k <;> simp [step, daStore, blobsOf, cnt]
+      cases k <;> simp [step, daStore, blobsOf, bytesOf, cnt]
     | canceled => simp [step]
     | notIncluded => simp [step]
     | inMempool => simp [step]
